@@ -27,7 +27,7 @@ func init() {
 		Rule: "TLS configurations {server authentication only (also with a TLS 1.3 minimum, against clients that go no further than 1.2); client certificate required and verified (harness PKI on a gldap.Server, and testdirectory.Start(WithMTLS))} x offending client behaviours {plaintext LDAP request of each of " +
 			"the seven operations carrying a unique tag; arbitrary bytes; TCP connect without ClientHello; partial ClientHello; and - where a certificate is required - a TLS 1.2 and a TLS 1.3 handshake without certificate " +
 			"followed immediately by a tagged bind (in TLS 1.3 the client finishes first, so the request is already in flight when the server rejects), a certificate from a different CA, an expired certificate, certificate-less and foreign-CA clients that offer TLS 1.0/1.1 only, and a client certificate that is valid for ANOTHER test directory / GetTLSConfig call of the same process}; plaintext requests are also followed by further writes on the same socket; a session that satisfies the configuration is closed with close_notify both ways and the client then sends a tagged plaintext request on the same TCP connection; " +
-			"run concurrently with conforming clients that are verified; also crafted chains (a foreign leaf followed by certificates the configured CA did issue), configurations that deliver their certificate or themselves through callbacks, a different configuration given to NewServer, and abandoned handshakes held open while a conforming client must be served within 10s; every server is stopped while three peers that never got through a handshake are still connected (the mux also routes the Notice-of-Disconnection name). Oracle: after each offending connection has been reported closed, no handler record (recording handlers / the test directory's own handler log) carries an offending tag. " +
+			"run concurrently with conforming clients that are verified; also crafted chains (a foreign leaf followed by certificates the configured CA did issue), configurations that deliver their certificate or themselves through callbacks (one of them on top of a lenient outer configuration, on a server that logs at Debug level), a different configuration given to NewServer, and abandoned handshakes held open while a conforming client must be served within 10s; every server is stopped while three peers that never got through a handshake are still connected (the mux also routes the Notice-of-Disconnection name). Oracle: after each offending connection has been reported closed, no handler record (recording handlers / the test directory's own handler log) carries an offending tag. " +
 			"distinct_nontrivial = distinct (configuration, behaviour, operation) combinations",
 		Assume: []string{"for the test directory, handler execution is observed through its own Info-level handler log lines (bind/search/add/modify/delete handlers log the DN) and through directory state"},
 		Phases: func(tier string, seed int64) []Phase {
@@ -315,7 +315,7 @@ func c18SessionAcrossServers(c *Ctx) {
 func c18Run(c *Ctx) {
 	c18SessionAcrossServers(c)
 	pki := newPKI()
-	for _, cfgName := range []string{"server-auth-only", "client-cert-required", "server-auth-only-certificate-from-callback", "client-cert-required-config-from-callback", "client-cert-required-while-NewServer-was-given-another-config", "server-auth-only-run-on-localhost", "client-cert-required-run-on-localhost", "server-auth-only-tls13-minimum"} {
+	for _, cfgName := range []string{"server-auth-only", "client-cert-required", "server-auth-only-certificate-from-callback", "client-cert-required-config-from-callback", "client-cert-required-while-NewServer-was-given-another-config", "server-auth-only-run-on-localhost", "client-cert-required-run-on-localhost", "server-auth-only-tls13-minimum", "client-cert-required-by-callback-on-top-of-a-lenient-config-debug-logger"} {
 		mtls := strings.HasPrefix(cfgName, "client-cert-required")
 		stc, ctc := pki.ServerOnly, pki.ClientPlain
 		if mtls {
@@ -328,6 +328,14 @@ func c18Run(c *Ctx) {
 		case "client-cert-required-config-from-callback":
 			inner := pki.ServerMTLS
 			stc = &tls.Config{GetConfigForClient: func(*tls.ClientHelloInfo) (*tls.Config, error) { return inner, nil }}
+		}
+		lvl := hclog.NoLevel
+		if cfgName == "client-cert-required-by-callback-on-top-of-a-lenient-config-debug-logger" {
+			// the outer configuration alone would let anybody in; the policy is what its GetConfigForClient returns.
+			// The server logs at Debug level (whatever it logs about a ClientHello, the policy stays the callback's)
+			inner := pki.ServerMTLS
+			stc = &tls.Config{Certificates: []tls.Certificate{pki.Server}, GetConfigForClient: func(*tls.ClientHelloInfo) (*tls.Config, error) { return inner, nil }}
+			lvl = hclog.Debug
 		}
 		var ctorTLS *tls.Config
 		if cfgName == "client-cert-required-while-NewServer-was-given-another-config" {
@@ -348,7 +356,7 @@ func c18Run(c *Ctx) {
 			stc.MinVersion = tls.VersionTLS13
 		}
 		// the application also has a route under the name of the Notice of Disconnection (any name can be routed)
-		srv, err := startSrv(SrvCfg{TLS: stc, CtorTLS: ctorTLS, Addr: runAddr}, func(m *gldap.Mux) {
+		srv, err := startSrv(SrvCfg{TLS: stc, CtorTLS: ctorTLS, Addr: runAddr, LogLevel: lvl}, func(m *gldap.Mux) {
 			rc.RegisterAll(m, []string{string(gldap.ExtendedOperationDisconnection)})
 		})
 		if err != nil {
